@@ -72,7 +72,7 @@ def fcn_expected(st, ag, m, g):
 
 
 FIELD_OVERRIDE[("FCNAgent", "is_chart_following")] = ("bool",)
-FCN_BY_MARKET = FSpec("FCNAgent.submit_orders_by_market", pre=fcn_pre, props=("C20",), fresh_result=True, result=("list", ("ref", "Order")), modifies=lambda st, a: ORDER_MODS)
+FCN_BY_MARKET = FSpec("FCNAgent.submit_orders_by_market", pre=fcn_pre, props=("C20",), fresh_result=True, result=("list", ("ref", "Order")), modifies=lambda st, a: ORDER_MODS_TIGHT)
 
 
 @task("FCNAgent.submit_orders_by_market", props=["C20"], functions=["FCNAgent.submit_orders_by_market", "Order.__init__", "Agent.is_market_accessible"], replay="agents", heavy=True)
@@ -333,8 +333,8 @@ def arb_wrap_loops():
         orders = st.env["orders"].term; rel = st.elems(orders, ("ref", "Order"))
         k, j = z3.Ints("k_arbi j_arbi")
         per = z3.And(*[f for _, f in arb_basket_clauses(ent, st, a["self"], _arb_market(ent, a, k), rel, ARB_OFF(k), ARB_LEN(k))])
-        return [("the orders collected so far are exactly the baskets of the markets handled so far", st.length(orders) == ARB_OFF(i)),
-                ("offsets grow", z3.ForAll([k], z3.Implies(z3.And(0 <= k, k < i), z3.And(0 <= ARB_OFF(k), ARB_OFF(k) <= ARB_OFF(k + 1), ARB_OFF(k + 1) <= ARB_OFF(i))), patterns=[ARB_LEN(k)])),
+        return [("the orders collected so far are exactly the baskets of the markets handled so far", z3.And(st.length(orders) == ARB_OFF(i), ARB_OFF(i) >= 0)),
+                ("earlier baskets lie inside what has been collected", z3.ForAll([k], z3.Implies(z3.And(0 <= k, k < i), z3.And(0 <= ARB_OFF(k), 0 <= ARB_LEN(k), ARB_OFF(k) + ARB_LEN(k) <= ARB_OFF(i))), patterns=[ARB_LEN(k)])),
                 ("baskets so far", z3.ForAll([k], z3.Implies(z3.And(0 <= k, k < i), per), patterns=[ARB_LEN(k)])),
                 ("the result list and its orders are objects created by this call",
                  z3.And(z3.Not(ent.is_alloc(orders)), st.is_alloc(orders), z3.ForAll([j], z3.Implies(z3.And(0 <= j, j < st.length(orders)), z3.And(z3.Not(ent.is_alloc(z3.Select(rel, j))), st.is_alloc(z3.Select(rel, j)))))))]
@@ -506,7 +506,8 @@ def fcn_wf_post(st0, st1, a, res):
             ("C20 every emitted order is a well-formed limit order under the agent's own id for that market",
              z3.ForAll([i], z3.Implies(z3.And(0 <= i, i < n), z3.And(O(st1, "agent_id")[z3.Select(el, i)] == st0.read(ag, "agent_id").term, O(st1, "market_id")[z3.Select(el, i)] == mid,
                                                                        O(st1, "kind")[z3.Select(el, i)] == 1, O(st1, "volume")[z3.Select(el, i)] == 1, z3.Not(O(st1, "price", "none")[z3.Select(el, i)]),
-                                                                       O(st1, "placed_at", "none")[z3.Select(el, i)], O(st1, "order_id", "none")[z3.Select(el, i)], z3.Not(O(st1, "is_canceled")[z3.Select(el, i)])))))]
+                                                                       O(st1, "placed_at", "none")[z3.Select(el, i)], O(st1, "order_id", "none")[z3.Select(el, i)], z3.Not(O(st1, "is_canceled")[z3.Select(el, i)]))))),
+            ("every returned order is an object created by this call", z3.ForAll([i], z3.Implies(z3.And(0 <= i, i < n), z3.And(z3.Not(st0.is_alloc(z3.Select(el, i))), st1.is_alloc(z3.Select(el, i))))))]
 
 
 FCN_BY_MARKET.post = fcn_wf_post
@@ -561,6 +562,102 @@ def t_market_share():
                   ("m", "FCNAgent", "submit_orders_by_market"): FCN_BY_MARKET.handler()})
     obl, info = MS_SUBMIT.verify(specs=specs, loops=ms_loops())
     return {"obligations": obl, "info": [info]}
+
+
+# ----------------------------------------------------------------------------- FCNAgent.submit_orders: each listed market consulted exactly once, in order; result = concatenation of the per-market results (C20)
+def fcn_wrap_task():
+    INT_REF = lambda: z3.ArraySort(z3.IntSort(), REF); INT_INT = lambda: z3.ArraySort(z3.IntSort(), z3.IntSort())
+    SRC = lambda st: st.gh("fw_src", INT_REF)          # ghost: the list returned by the consultation of position k
+    OFF = lambda st: st.gh("fw_off", INT_INT)          # ghost: length of the accumulated result before position k is added
+    CALLS = lambda st: st.gh("fw_calls", INT_INT)      # ghost: number of consultations made for position k
+    OTY = ("ref", "Order")
+
+    def market_at(st, k):
+        return V(("ref", "Market"), z3.Select(st.elems(st.env["markets"].term, ("ref", "Market")), k))
+
+    def segments(ent, st, ag, mk, acc, upto, k):
+        """facts about position k (< upto): its consultation's result is the k-th segment of `acc`, and is a well-formed answer for the k-th market"""
+        off, src = OFF(st), SRC(st)
+        lst = z3.Select(src, k); n = z3.Select(off, k + 1) - z3.Select(off, k)
+        wf = z3.And(*[f for _, f in fcn_wf_post(ent, st, {"self": ag, "market": mk(k)}, V(("list", OTY), lst))])
+        return z3.And(z3.Select(off, k) >= 0, n >= 0, n <= 1, z3.Select(off, k + 1) <= z3.Select(off, upto), n == st.length(lst), st.is_alloc(lst), z3.Not(ent.is_alloc(lst)), lst != acc,
+                      z3.Implies(n == 1, z3.Select(st.elems(acc, OTY), z3.Select(off, k)) == z3.Select(st.elems(lst, OTY), 0)), wf)
+
+    def calls_ok(st, upto):
+        k = z3.Int("k_fwc")
+        return z3.ForAll([k], z3.And(z3.Implies(z3.And(0 <= k, k < upto), z3.Select(CALLS(st), k) == 1), z3.Implies(k >= upto, z3.Select(CALLS(st), k) == 0)))
+
+    def inv(st, ctx):
+        i = ctx["i"]; ent = ctx["fn_entry"]; ag = st.env["self"]
+        acc = st.env["__sum_acc"].term; k = z3.Int("k_fwi")
+        mk = lambda kk: market_at(ent, kk) if False else V(("ref", "Market"), z3.Select(ent.elems(st.env["markets"].term, ("ref", "Market")), kk))
+        return [("the accumulated list holds what the consultations so far returned", z3.And(z3.Select(OFF(st), 0) == 0, st.length(acc) == z3.Select(OFF(st), i), z3.Select(OFF(st), i) >= 0)),
+                ("each position so far was consulted exactly once, later positions not yet", calls_ok(st, i)),
+                ("segments so far", z3.ForAll([k], z3.Implies(z3.And(0 <= k, k < i), segments(ent, st, ag, mk, acc, i, k)), patterns=[z3.Select(SRC(st), k)])),
+                ("the accumulator is an object created by this call", z3.And(z3.Not(ent.is_alloc(acc)), st.is_alloc(acc)))]
+
+    def on_iter(ex, st, ctx):
+        st.ghost["loop_index"] = ctx["i"]
+
+    base = FCN_BY_MARKET.handler()
+
+    def by_market(ex, st, recv, pos, kw, node):
+        i = st.ghost.get("loop_index")
+        if i is None:
+            raise Unsupported("FCNAgent.submit_orders_by_market called outside the consultation loop")
+        st = st.copy()
+        mkt = kw.get("market", pos[0] if pos else None)
+        st.oblige("C20 the market consulted at position i is the i-th market of the list", z3.And(recv.term == st.env["self"].term, mkt.term == market_at(st, i).term), "pre@callsite")
+        st.oblige("C20 each position is consulted at most once", z3.Select(CALLS(st), i) == 0, "pre@callsite")
+        out = []
+        for s1, r in base(ex, st, recv, pos, kw, node):
+            s1 = s1.copy()
+            s1.set_gh("fw_calls", z3.Store(CALLS(s1), i, z3.Select(CALLS(s1), i) + 1))
+            s1.set_gh("fw_src", z3.Store(SRC(s1), i, r.term))
+            out.append((s1, r))
+        return out
+
+    def ghost_after_extend(ex, s1):
+        i = s1.ghost["loop_index"]
+        s1.set_gh("fw_off", z3.Store(OFF(s1), i + 1, s1.length(s1.env["__sum_acc"].term)))
+
+    def pre(st, a):
+        k = z3.Int("k_fwp"); ms = a["markets"]; nm = st.length(ms.term)
+        m = V(("ref", "Market"), z3.Select(st.elems(ms.term, ("ref", "Market")), k))
+        per = z3.And(*[f for _, f in fcn_pre(st, {"self": a["self"], "market": m})])
+        return [("len >= 0", nm >= 0), ("every listed market satisfies the FCN preconditions (admissible parameters, positive prices)", z3.ForAll([k], z3.Implies(z3.And(0 <= k, k < nm), per))),
+                ("closed heap: the listed markets are existing objects", z3.ForAll([k], z3.Implies(z3.And(0 <= k, k < nm), st.is_alloc(m.term))))]
+
+    def post(st0, st1, a, res):
+        k = z3.Int("k_fwq"); ms = a["markets"]; nm = st0.length(ms.term)
+        mk = lambda kk: V(("ref", "Market"), z3.Select(st0.elems(ms.term, ("ref", "Market")), kk))
+        return [("C20 every listed market is consulted exactly once (and, by the call-site obligations, in list order)", calls_ok(st1, nm)),
+                ("C20 the result has exactly the orders the consultations returned", z3.And(z3.Select(OFF(st1), 0) == 0, st1.length(res.term) == z3.Select(OFF(st1), nm))),
+                ("C20 the answer of the k-th market is the k-th segment of the result: a well-formed order under the agent's own id for that market, none for an inaccessible one",
+                 z3.ForAll([k], z3.Implies(z3.And(0 <= k, k < nm), segments(st0, st1, a["self"], mk, res.term, nm, k)), patterns=[z3.Select(SRC(st1), k)]))]
+
+    spec = FSpec("FCNAgent.submit_orders", pre=pre, post=post, props=("C20",), fresh_result=True, result=("list", OTY),
+                 modifies=lambda st, a: ORDER_MODS_TIGHT + ["g:fw_src", "g:fw_off", "g:fw_calls", "g:draws"])
+
+    def setup(ex, st, a):
+        ex.ghost_after = {"sumcomp-extend": ghost_after_extend}
+        st.set_gh("fw_calls", z3.K(z3.IntSort(), z3.IntVal(0)))          # ghost initial state: nothing consulted yet, offset 0
+        st.set_gh("fw_off", z3.Store(OFF(st), 0, 0)); SRC(st)
+
+    @task("FCNAgent.submit_orders", props=["C20"], functions=["FCNAgent.submit_orders"], replay="agents")
+    def t_fcn_wrapper():
+        """lemma over the contract of submit_orders_by_market: sum([... for market in markets], []) consults every market once, in order, and concatenates the answers"""
+        lp = LoopSpec(inv, modifies=lambda st, ctx: ORDER_MODS_TIGHT + ["g:fw_src", "g:fw_off", "g:fw_calls", "g:draws"], header="markets", name="consultations", on_iter=on_iter, frame_since_entry=True)
+        lp.acc_type = OTY
+        specs = dict(ACCESSORS)
+        specs[("m", "FCNAgent", "submit_orders_by_market")] = by_market
+        obl, info = spec.verify(specs=specs, loops={("sumcomp",): lp}, setup=setup)
+        info["assumptions"] = info["assumptions"] + ["sum(list_of_lists, []) is read as the left-to-right loop `acc = acc + next` (definition of sum and list +); the per-step copies are not modelled (nobody else holds them)"]
+        return {"obligations": obl, "info": [info]}
+    return spec
+
+
+FCN_WRAP = fcn_wrap_task()
 
 
 # ----------------------------------------------------------------------------- FCNAgent.setup: every strategy parameter is drawn from ITS OWN configuration key (C20: the documented strategy uses the configured weights)
